@@ -147,7 +147,9 @@ impl World<'_> {
     pub fn model_add(&self, model: &mut BTreeSet<usize>, a: Act) {
         match a {
             Act::Export(t) => {
-                model.insert(t);
+                // instantiations of one generic type are one declaration: first entry with that name
+                let name = (self.uni[t].info.ident)();
+                model.insert(self.uni.iter().position(|u| (u.info.ident)() == name).unwrap());
             }
             Act::ExportAll(t) | Act::ExportAllTo(t, _) => model.extend(closure_of(self.uni, t)),
             Act::ExportAllToOther(t) => model.extend(closure_of(self.uni, t).into_iter().map(|x| x + OTHER)),
